@@ -51,6 +51,27 @@ CHECKS = {
         note="Every caller-supplied estimator has an integer seed, so remaining global-generator dependence originates in the library or in helpers it constructs. Two fresh twins per run; the proxy is a dynamic subclass that only adds the actor's draw.",
         design="4/C06",
     ),
+    "C13": dict(
+        engine="lifesim",
+        technique=TECH + "call histories (fit / partial_fit / predict / query / update) on one long-lived object with injected wrapped-estimator failures; comparison with a fresh twin built from the original constructor spec, get_params / caller-dict monitor, deque reference model for the sliding window",
+        text="One estimator object lives through a seeded history of fit / partial_fit / predict* calls over data sets of different size, scale, dimensionality, label pattern and weights, with symbolic defaults left symbolic, caller-owned dicts as parameters and scheduler-injected fit failures of the wrapped scikit-learn estimator. After every fit-type call it must predict like a fresh object (built from a deep copy of the original constructor spec) that received only the fit-type calls since the last fit; get_params(deep=True) and caller-owned dicts are compared by value after every public call; SlidingWindowClassifier must predict like its base estimator fitted on a deque(maxlen=window_size) of what it was given. Stream strategies and budget managers take part through query/update histories with the same parameter monitor.",
+        note="Integer seeds only (the position of a RandomState passed as parameter is not judged). Weighted and unweighted calls are not mixed on a sliding window (unspecified). For partial_fit only leakage from before the last fit and from non-fit calls is judged.",
+        design="4/C13",
+    ),
+    "C11": dict(
+        engine="lifesim",
+        technique=TECH + "fit / partial_fit histories with injected failures of the wrapped estimator and class-poor stretches; simplex, column-order and cost-optimal-decision invariants after every event",
+        text="NARROWED CLAIM: the states of SklearnClassifier, SlidingWindowClassifier and AnnotatorEnsembleClassifier that depend on a call history or on a failing collaborator (wrapped estimator has seen fewer classes than declared, fails to fit, succeeds after a failure; window slides over class-poor stretches). After every fit-type event: predict_proba finite, shape (n, n_classes), non-negative, rows summing to one, the only observed class carries the largest probability at its own training points (column order), predict_freq non-negative, predict within classes_ and cost-optimal w.r.t. predict_proba @ cost_matrix_ up to ties, uniform distribution after a fit without labels. The same invariants are evaluated on ParzenWindowClassifier, MixtureModelClassifier and AnnotatorLogisticRegression along the same histories, but those states are a function of the last fit only and are reported as sampled inputs, not as simulation coverage.",
+        note="Decision optimality is only judged when the wrapped scikit-learn estimator's own predict is the arg-max of its own finite predict_proba on the query points (precondition on the collaborator), and not for hard-voting ensembles (their predict_proba is random per call). The random fall-back prediction of SklearnClassifier is a recorded known finding.",
+        design="4/C11",
+    ),
+    "C15": dict(
+        engine="lifesim",
+        technique=TECH + "fit / partial_fit histories reaching zero-label, one-label and failed-collaborator states; fall-back value oracle plus distribution-coherence invariants after every event",
+        text="NARROWED CLAIM: the fall-back clause and the history-reached degenerate states. SklearnRegressor and SklearnNormalRegressor around real estimators behind the fault injector must, after an injected or natural fit failure and with zero or one label, return the documented default (mean 0 or the empirical label mean; std 1 or the empirical std) instead of raising. Along every history all probabilistic regressors must satisfy predict == mean/std/entropy of predict_target_distribution, finite non-negative std under the stated precondition, sample_y of shape (n_query, n_samples) that repeats for a fixed seed; these three are pure per state and are evaluated and reported, the claim being the fall-back clause and the reached states.",
+        note="NadarayaWatsonRegressor is only judged with at least one label. Estimator faults are clean failures (raise before mutating).",
+        design="4/C15",
+    ),
 }
 
 NOT_APPLICABLE = {
